@@ -14,8 +14,6 @@ resistance.  Current-flow betweenness goes through float32 copies of the
 admittance and of R: 1e-4 relative (DESIGN 2.9 / C18) plus the analytic
 cancellation term 2e-6 * max|ER| * (admittive degree).
 """
-from fractions import Fraction
-
 import numpy as np
 from hypothesis import strategies as st
 
